@@ -132,7 +132,7 @@ CHECKS = {
             "agreement with a reference of the merge-window bookkeeping is counted, not required (not part of the statement)", "§10 C39"),
     "C19": ("mc-store", E1, "exhaustive enumeration (E1) of the instruction x signer matrix plus explicit-state BFS (E3) of authority/receiver hand-over histories, through the real program entrypoints in the in-process runtime",
             "Every probed privileged store instruction (named in the evidence) is executed with valid accounts by the entitled signer (passes authorisation) and by a stranger, the admin and the single-role holder of each of the other 13 roles (RESTART_ADMIN included, which is entitled only after a cluster restart) (must be rejected; rejected instructions commit nothing); the moving offices (store authority, fee receiver) are explored breadth first as nominate/accept histories by three actors to a fixpoint against a reference. Timelock instructions are covered by C36, market config updates by C20, execute/close by C23.",
-            "claims only the instructions listed in the evidence (62: store administration, token map, oracle, markets incl. creation, GT, position-order execution and liquidation, execution of deposits/withdrawals/shifts, keeper maintenance of fee/ADL/closed state, creation of virtual inventories, GLV management, liquidity-provider administration, treasury configuration with role checks by CPI); GLV actions and shifts, joining/leaving virtual inventories, ADL execution, the remaining treasury instructions and competition administration are not probed", "§6 C19"),
+            "claims only the instructions listed in the evidence (64: store administration, token map, oracle, markets incl. creation, GT, position-order execution and liquidation, execution of deposits/withdrawals/shifts, keeper maintenance of fee/ADL/closed state, creation of virtual inventories, GLV management, liquidity-provider administration, treasury configuration with role checks by CPI); GLV actions and shifts, joining/leaving virtual inventories, ADL execution, the remaining treasury instructions and competition administration are not probed", "§6 C19"),
     "C40": ("mc-store", E1, "exhaustive differential enumeration (E1) of program vs SDK on identical account bytes",
             "Sizes of every zero-copy account declared for the SDK; every model accessor of the program Market vs the SDK MarketModel over a family of market contents (all keys populated, closed x closed-params x every flag, all pools populated, pure market); swaps and fee-state updates on a real RevertibleMarket vs the SDK model under the same stubbed time; real deposit/withdrawal instructions vs the SDK simulation (amounts and resulting views); real increase/decrease order instructions on an A|A/B and a pure market, all four sides, four price moves, vs the SDK PositionModel (execution price, impact, pnl, output amounts, position after, removal, market view); every config key written with 0/1/MAX on a populated base for open/closed markets with and without closed-market parameters.",
             "clock fixed for the position section (the SDK model has no borrowing-state update); discount comparison is C31", "§10 C40"),
